@@ -22,7 +22,7 @@ import (
 
 const prop = "C08"
 
-var faults = []string{"stall", "eof", "ioerr", "ioerr+data", "oversize-burst", "oversize-drip", "write-error", "setwritedeadline-error", "cancel", "cancel-before", "flush-error"}
+var faults = []string{"stall", "eof", "ioerr", "ioerr+data", "oversize-burst", "oversize-by-1", "oversize-by-2", "oversize-by-4", "oversize-drip", "write-error", "setwritedeadline-error", "cancel", "cancel-before", "flush-error"}
 
 type Case struct {
 	Kind    int      `json:"kind"`
@@ -90,6 +90,21 @@ func (f *faulty) Read(t *clientx.Transport, bufLen int) clientx.ReadAnswer {
 	case "oversize-burst":
 		if first {
 			return clientx.ReadAnswer{N: t.Remaining(), Extra: make([]byte, 400), Label: "burst"}
+		}
+		return f.silent()
+	case "oversize-by-1", "oversize-by-2", "oversize-by-4":
+		// the total lands just above the client's limit (256 bytes on a serial line, 260 on the network clients)
+		if first {
+			k := int(f.fault[len(f.fault)-1] - '0')
+			limit := 260
+			if t.Kind.IsSerial() {
+				limit = 256
+			}
+			extra := limit + k - t.ReplyLen()
+			if extra < 1 {
+				extra = 1
+			}
+			return clientx.ReadAnswer{N: t.Remaining(), Extra: make([]byte, extra), Label: "burst"}
 		}
 		return f.silent()
 	case "oversize-drip":
@@ -185,10 +200,14 @@ func judge(sc clientx.Sc, run clientx.Run, c Case, res *ev.Result) (nontrivial b
 			}
 		}
 	}
+	// the limit beyond which a reply is "oversize": 260 bytes for the network clients (for RTU framing over a network
+	// connection the specification's 256 would also be defensible: totals of 257..260 there are left unclassified), 256 on
+	// a serial line
 	max := 260
-	if rtu {
+	if sc.Kind.IsSerial() {
 		max = 256
 	}
+	_ = rtu
 	oversize := total > max
 	// The total read timer is armed after the write (the serial client first sleeps 30 ms). The call "timed out" when the
 	// clock passed that deadline while the line was silent (last transport read was empty).
